@@ -179,6 +179,10 @@ func (w *World) readContractComments(f *ast.File, fname string) {
 	var lines, poss []string
 	for _, cg := range f.Comments {
 		for _, c := range cg.List {
+			if strings.HasPrefix(c.Text, "// @") {
+				// gofmt rewrites //@ to // @ inside doc comments
+				c = &ast.Comment{Slash: c.Slash, Text: "//@" + c.Text[4:]}
+			}
 			if strings.HasPrefix(c.Text, "//@") {
 				lines = append(lines, c.Text[3:])
 				p := w.Fset.Position(c.Pos())
